@@ -73,6 +73,9 @@ type CtxSpec struct {
 	Us int `json:"us,omitempty"`
 	// Trigger awaited by the canceller (after the operation's start was logged) before the pause.
 	Trigger string `json:"trigger,omitempty"`
+	// FarUs > 0 (cancel, precancel): the context also carries a deadline, that far
+	// away; it is cancelled long before (context.WithTimeout + cancel()).
+	FarUs int `json:"far_us,omitempty"`
 }
 
 // StreamOp is one consumer operation.
@@ -155,7 +158,10 @@ func (s *StreamScenario) runOps(rw varlink.ReadWriterContext, base context.Conte
 		var dctx *sim.DeadlineCtx
 		switch op.Ctx.Mode {
 		case "cancel", "precancel":
-			dctx = sim.NewCtx(0)
+			if op.Ctx.FarUs > 0 {
+				sim.Rec("ctx.deadline", sf(`{"i":%d,"us":%d}`, i, op.Ctx.FarUs))
+			}
+			dctx = sim.NewCtx(time.Duration(op.Ctx.FarUs) * time.Microsecond)
 			ctx = dctx
 		case "deadline":
 			sim.Rec("ctx.deadline", sf(`{"i":%d,"us":%d}`, i, op.Ctx.Us))
@@ -856,7 +862,7 @@ func decodeStream(raw json.RawMessage) (Scenario, error) {
 
 func init() {
 	register(&Property{ID: "C18", Gen: genC18, Decode: decodeStream})
-	register(&Property{ID: "C17", Gen: genC17, Decode: decodeStream})
+	register(&Property{ID: "C17", Gen: genC17, Decode: decodeEither(decodeStream)})
 	raceFamilies["stream"] = decodeStream
 }
 
@@ -978,7 +984,17 @@ func genC18(seed uint64, tier string) Scenario {
 	return s
 }
 
+// genC17: the stream family, and (one run in twelve) the serving-context family:
+// the service's per-connection reads under a context that ends.
 func genC17(seed uint64, tier string) Scenario {
+	g := NewGen(seed, 0xC17A)
+	if g.IntN(12) == 0 {
+		return wrapMix("life", genServeCtx(g, "C17", tier))
+	}
+	return genC17Stream(seed, tier)
+}
+
+func genC17Stream(seed uint64, tier string) Scenario {
 	g := NewGen(seed, 0xC17)
 	s := genStreamBase(g, "C17")
 	s.Stream = genStreamBytes(g, 2+g.IntN(5*deeper(tier)), 200)
@@ -1043,6 +1059,9 @@ func genC17(seed uint64, tier string) Scenario {
 					op.Ctx = CtxSpec{Mode: "cancel", Us: g.IntN(100)}
 				}
 			}
+		}
+		if (op.Ctx.Mode == "cancel" || op.Ctx.Mode == "precancel") && g.Pct(25) {
+			op.Ctx.FarUs = 3600e6
 		}
 		s.Ops = append(s.Ops, op)
 		if op.Ctx.Mode == "servecancel" {
